@@ -130,6 +130,9 @@ def run(ctx):
                     ctx.case(('pt-big', codec, G.shape(c.rt, c.t), repr(c.value)[:20]), None)
     ctx.log('REAL sweep')
     pt_real(ctx, 150 if ctx.quick else 5000)
+    # REAL contents octets: Coq model (Ber/Real.v, C01_real_roundtrip) vs ber.encode_real / decode_real
+    import real_model
+    ctx.extra['real_model'] = real_model.run_real(ctx, 120 if ctx.quick else 1500, 620 if ctx.quick else 1400)
     ctx.log('known-finding witnesses')
     rerun_findings(ctx)
     if not ok:
